@@ -37,6 +37,14 @@ CLAIMS = {
         "text": "EZSP.reset, version, _switch_protocol_version, startup_reset and write_config (every version 4..14 and a newer one) proved with interference at awaits: after any reset the handler is the legacy (v4) one with version 4 and the layer running; the first version query asks for the currently assumed version, the handler for the reported version (own tables, newest for unknown newer) is installed between the two queries and the second query asks for exactly the reported version; every normal bring-up went through reset-or-spontaneous-reset then version, with the start-up wait bounded; the default configuration write raises no KeyError for any version.",
         "note": "Assumed: the NCP honours the version handshake; ASH-level faults are C01/C05; is_tcp_serial_port (urllib parsing) trusted; startup_reset is verified under the precondition of its call sites (freshly connected object), see DESIGN 5 (F3 is not reachable from the call sites).",
     },
+    "C15": {
+        "text": "Multicast.subscribe / unsubscribe proved for both status families (legacy and unified tables), all group ids, all table contents satisfying the representation invariant (on two ghost groups and the operation's group: a used index is not free, two groups never share an index), all NCP answers (accept, any rejection status) and all exceptions at the table write: already-subscribed succeeds without a write, no free index reports INVALID_INDEX without a write, otherwise exactly one write of this group at a free index; the host view changes iff the NCP accepted; a failing call (rejection or exception) leaves the number of free indices and the subscribed set unchanged; the invariant is preserved.",
+        "note": "Sequential histories as quantified by the property: no other table operation runs while one is suspended (interference frame empty), so overlapping subscribe calls are outside this check (seeded change C15-m2 needs them and is not detected). _initialize / startup are not under contract yet. NCP table content is an assumed model (responses shaped by the live tables).",
+    },
+    "C19": {
+        "text": "_watchdog_feed proved for every counter state, protocol version and every outcome of each keep-alive await: success clears the count; a failed feed (timeout / EZSP error at any keep-alive command of the feed) counts exactly one and raises iff the run now exceeds MAX_WATCHDOG_FAILURES; other exceptions propagate uncounted; version 4 sends one nop, later versions advance the feed counter and read-and-clear exactly on the configured period. _watchdog_loop starts every run at zero before delegating to zigpy's loop.",
+        "note": "zigpy's base _watchdog_loop, the counters objects and the EZSP object are external (assumed effects); int.from_bytes on the free-buffer value is an uninterpreted non-negative function. The unused max_watchdog_failures config key is an observation (DESIGN 3 C19).",
+    },
     "C16": {
         "text": "EZSP.write_config proved for every protocol version 4..14 and a newer one: the table of settings about to be written (user values exactly, disabled settings absent, untouched defaults with their grow-only marker, capacity settings not supplied by the user grow-only, one entry per setting, packet-buffer count last) is asserted when the write loop is reached; the loop body is proved for an arbitrary table entry and arbitrary NCP answers (read then at most one exact set; a grow-only entry is never written when the NCP's readable value is not smaller; a rejected set is not an exception). Table obligation: every capacity default is grow-only in every version.",
         "note": "BOUNDED DIMENSION (stated, not hidden): user override sets of size <= 2 over the four key categories the code distinguishes (grow-only default, plain default, no default, buffer count), both insertion orders, each value symbolic or None; larger override sets follow from the per-key independence of the merge loop (argued). voluptuous validation assumed to return user entries plus schema defaults. Known finding F8 (v7 schema default for the key table) is listed in known_findings.json.",
